@@ -243,10 +243,10 @@ def rand_vals(g, n):
 
 
 PARTIAL = [
-    "mprocess: object -> var -> object <=> built-in constraint is not proved as a theorem (var -> object -> var, stacked forms, "
-    "reshape consistency and length are: mp_var_roundtrip); the oracle checks it on the real code for every configuration",
-    "calc_gradient one-hot: no theorem (model gradX + exhaustive correspondence and oracle per variable index); note that for POVM / "
-    "mprocess with the flag on the one-hot gradient ignores the -1 on the implied element (DESIGN C03 item 4) - not a clause of C03",
+    "calc_gradient: proved as the derivative of var -> object for State (both flags) and Gate (stacked form, both flags; gate_gradient_onehot); "
+    "for POVM / mprocess with the flag on only the free block is a derivative (povm_gradient_free_block_partial) - the implied block changes by "
+    "-t e_{i mod d^2}, which the one-hot gradient ignores (witness povm_gradient_is_not_derivative_on_implied_block); no mprocess gradient theorem "
+    "(model gradMp + exhaustive correspondence and oracle per variable index)",
     "var_total_points_at is stated per type group; the offsets between the four groups are covered by total_local_roundtrip / "
     "local_total_roundtrip",
 ]
@@ -287,6 +287,19 @@ def correspondence(ctx):
         add("stacked->var", (cfg, flat.tolist()), r, ask_s2v(drv, ty, c, flat, flag))
         ctx.case(("conv", cfg, tuple(var)), nontrivial=flag,
                  sample={"op": "var<->obj<->stacked", "type": ty, "shape": shape, "m": m, "flag": flag, "num_var": n})
+        # generate_from_var(var, on_para_eq_constraint=requested) on this template: resolved flag and resulting object
+        for rf in (None, True, False):
+            eff = flag if rf is None else rf
+            var_e = var if eff == flag else rand_vals(g, nvars(ty, d, m, eff))
+            def gen(rf=rf, var_e=var_e):
+                ge = obj.generate_from_var(var_e, is_physicality_required=False, on_para_eq_constraint=rf)
+                return ge
+            r = attempt(lambda: fl(gen().on_para_eq_constraint))
+            add("generate_from_var/flag", (cfg, rf), r[1] if r[0] == "ok" else "err",
+                drv.ask("gen_flag", fl(flag), "n" if rf is None else fl(rf)), "text")
+            r = attempt(lambda: gen().to_stacked_vector())
+            add("generate_from_var/object", (cfg, rf, var_e.tolist()), r, ask_v2o(drv, ty, c, var_e, eff))
+            ctx.case(("genfromvar", cfg, rf), nontrivial=rf is not None and rf != flag)
         # wrong lengths: both sides must reject (or both accept)
         if ty != "state":
             for delta in (1, -1, d * d):
@@ -482,6 +495,23 @@ def check_config(ctx, shape, ty, flag, m, salt, exhaustive=True):
         gen = obj.generate_from_var(var, is_physicality_required=False)
         if not eq(gen.to_stacked_vector(), o_flat) or not eq(gen.to_var(), var) or gen.on_para_eq_constraint != flag:
             ctx.violate(sig + "/generate_from_var", f"{shape} m={m}: generate_from_var(var) is not the object of var", rep); return
+        # generate_from_var with the parametrisation requested explicitly: template flag x requested (None / True / False)
+        for rf in (None, True, False):
+            eff = flag if rf is None else rf
+            tagf = f"template={'on' if flag else 'off'},requested={'none' if rf is None else ('on' if rf else 'off')}"
+            var_e = var if eff == flag else (np.arange(nvars(ty, d, m, eff), dtype=np.float64) + 3.0) / 8.0
+            want_e = flat_of(ty, var_to_obj(ty, c, var_e, eff))
+            r3 = dict(rep, requested=rf)
+            try:
+                ge = obj.generate_from_var(var_e, is_physicality_required=False, on_para_eq_constraint=rf)
+                ok = (ge.on_para_eq_constraint == eff and eq(ge.to_stacked_vector(), want_e) and eq(ge.to_var(), var_e)
+                      and (ty not in ("povm", "mprocess") or len(ge.vecs if ty == "povm" else ge.hss) == m))
+            except Exception as e:  # noqa
+                ctx.violate(f"C03/{ty}/generate_from_var/{tagf}/raises", f"{shape} m={m}: {type(e).__name__}: {e}", r3); return
+            if not ok:
+                ctx.violate(f"C03/{ty}/generate_from_var/{tagf}", f"{shape} m={m}: generate_from_var(var, on_para_eq_constraint={rf}) on a template "
+                            f"with flag {flag} is not the object of var in the requested parametrisation "
+                            f"(flag {ge.on_para_eq_constraint}, {len(ge.to_var())} variables, expected flag {eff}, {len(var_e)})", r3); return
         st = var_to_stacked(ty, c, var, flag)
         if not eq(st, o_flat):
             ctx.violate(sig + "/var->stacked", f"{shape} m={m}: convert_var_to_stacked_vector != stacked(object of var)", rep); return
